@@ -34,6 +34,14 @@ def check_primitives(ctx, r, n):
         xs = [rand_str(r, 4) for _ in range(r.randint(0, 4))]
         add({"f": "join", "s": x, "xs": xs}, x.join(xs))
         add({"f": "len", "s": s}, len(s))
+        k = r.pick([0, 1, -1, -2, 2, 5, -6, len(s), -len(s), len(s) - 1, -len(s) - 1])
+        try: w = s[k]
+        except IndexError: w = {"raised": "IndexError"}
+        add({"f": "idxStr", "s": s, "n": k}, w)
+        k = r.pick([0, 1, -1, -2, 2, len(xs), -len(xs), len(xs) - 1, -len(xs) - 1])
+        try: w = xs[k]
+        except IndexError: w = {"raised": "IndexError"}
+        add({"f": "idxList", "s": "", "xs": xs, "n": k}, w)
     for op, w, mo in zip(ops, want, ctx.driver.ask(ops)):
         ctx.case(distinct_key=["pyrt", json.dumps(op, sort_keys=True)]); ctx.traces += 1
         ctx.count("pyrt_primitive", op["f"])
@@ -54,6 +62,7 @@ def _resolve(qual_file, qual):
 
 
 LIST_POOL = ["- a", "+ b", "1. x", "22. y", "-", "- ", "+ ", "1.", "1. ", "1.x", "a. b", "10.  z", " - a", "", "+", "9. ", "-a", "- ab", "12. ", "123. x", "1 . x", "١. x"]
+PK_POOL = [[], ["acme"], ["acme", "lib", "v1"], ["google", "cloud", "vision", "v1p1beta1"], ["acme", "v1"], ["v1"], ["a_b", "c__d", "v2"], ["x_", "v1"], ["acme", "lib", "v1", "sub"], ["acme", "v1x/y"], ["acme", "v1\n"]]
 POOLS = {
     "to_valid_filename": [["Foo Bar"], ["a/b.c"], ["x$y-z"], ["MiXed_9"], [""], ["a  b"], ["-"], ["A.B"]],
     "to_valid_module_name": [["foo-bar"], ["Foo.Bar"], ["a b"], ["import"], ["x--y"], [""], ["a/b"]],
@@ -79,6 +88,19 @@ POOLS = {
     **{k: [[m, v] for m in ("lib", "cloud_vision", "") for v in ("v1", "", "v1p1beta1")] for k in ("new_naming_versioned_module_name", "old_naming_versioned_module_name")},
     "metadata_doc": [[" lead \n", " trail", [" d1\n", " d2\n"]], ["", " trail \n\n", [" d"]], ["", "", [" d1\n", "", " d3 "]], ["", "", []], ["   ", "t", ["d"]],
                      ["", "  ", ["d"]], [" a\n b\n", "", []], ["", "", [""]], ["x", "y", ["z"]]],
+    "address_str": [[m, p, "Book", al, pp] for m in ("", "lib", "common") for p in ([], ["Outer"], ["Outer", "Inner"]) for al in ("", "ad_common") for pp in (True, False)],
+    "address_module_alias": [[m, c, pk, v] for m in ("common", "import", "lib", "") for c in ([], ["common"], ["lib", "x"])
+                             for pk in PK_POOL for v in ("v1", "", "lib")],
+    "address_proto": [[pk, p, "Book"] for pk in PK_POOL[:4] for p in ([], ["Outer"], ["A", "B"])],
+    "address_proto_package": [[pk] for pk in PK_POOL],
+    "address_versioned_package": [[pk] for pk in PK_POOL],
+    "address_subpackage": [[pk, ap] for pk in PK_POOL for ap in ("acme.lib.v1", "acme", "", "google.cloud.vision.v1p1beta1", "a.b.c.d.e.f")],
+    "address_python_import": [[["acme", "dep", "v1"], "common", ["acme"], "lib_v1", ap, nt, "acme.dep.v1", ["sub"], pp, ["acme", "dep_v1"], al]
+                              for ap in ("acme.lib.v1", "acme.dep", "") for nt in (True, False) for pp in (True, False) for al in ("", "ad_common")],
+    "address_rel": [[pk, "lib", p, "Book", opk, om, op, on, "lib.X.Book"] for pk in (["acme", "v1"],) for opk in (["acme", "v1"], ["acme"]) for om in ("lib", "other")
+                    for p in ([], ["Tree"], ["Tree", "Branch"], ["Other"]) for op in ([], ["Tree"], ["Other", "Tree"]) for on in ("Tree", "Book", "")],
+    "address_sphinx": [[pk, "common", p, "Book", ["acme"], "lib_v1", ap, nt, "acme.dep.v1", ["sub"], pp, ["acme", "dep_v1"], "common.Book"]
+                       for pk in ([], ["acme", "dep", "v1"]) for p in ([], ["Outer"]) for ap in ("acme.lib.v1", "acme.dep", "") for nt in (True, False) for pp in (True, False)],
 }
 GENS = {
     "to_valid_filename": lambda r: [rand_str(r, 10, ws=False)],
@@ -105,7 +127,29 @@ GENS = {
     "naming_module_name": lambda r: [rand_str(r, 10, ws=False)],
     **{k: (lambda r: [rand_str(r, 6, ws=False), r.pick(["", "v1", "v2beta1", rand_str(r, 4, ws=False)])]) for k in ("new_naming_versioned_module_name", "old_naming_versioned_module_name")},
     "metadata_doc": lambda r: [r.pick(["", "", rand_str(r, 8)]), r.pick(["", rand_str(r, 8)]), [rand_str(r, 6) for _ in range(r.randint(0, 3))]],
+    "address_str": lambda r: [r.pick(["", "lib", "common", "x_y"]), rand_pk(r, 2), r.pick(["Book", "", "B"]), r.pick(["", "", "al_lib"]), r.maybe()],
+    "address_module_alias": lambda r: [r.pick(["common", "import", "lib", "x", "from", "class"]), [r.pick(["common", "lib", "x", "y"]) for _ in range(r.randint(0, 3))], rand_pk(r, 4),
+                                       r.pick(["v1", "", "v2", "lib"])],
+    "address_proto": lambda r: [rand_pk(r, 4), rand_pk(r, 2), r.pick(["Book", "", "B"])],
+    "address_proto_package": lambda r: [rand_pk(r, 4)],
+    "address_versioned_package": lambda r: [rand_pk(r, 4)],
+    "address_subpackage": lambda r: [rand_pk(r, 5), ".".join(rand_pk(r, 4))],
+    "address_python_import": lambda r: [rand_pk(r, 4), r.pick(["common", "lib", ""]), rand_pk(r, 2), r.pick(["lib_v1", "lib", ""]), ".".join(rand_pk(r, 3)), r.maybe(), ".".join(rand_pk(r, 4)),
+                                        rand_pk(r, 2), r.maybe(), rand_pk(r, 3), r.pick(["", "", "al_common"])],
+    "address_rel": lambda r: [r.pick([["acme", "v1"], ["acme"]]), r.pick(["lib", "other"]), rand_names(r, 3), r.pick(["Book", "Tree", "B"]), r.pick([["acme", "v1"], ["acme"]]),
+                              r.pick(["lib", "other"]), rand_names(r, 3), r.pick(["Book", "Tree", "B", ""]), r.pick(["lib.Book", "x"])],
+    "address_sphinx": lambda r: [rand_pk(r, 4), r.pick(["common", "lib", ""]), rand_names(r, 2), r.pick(["Book", "B"]), rand_pk(r, 2), r.pick(["lib_v1", "lib", ""]), ".".join(rand_pk(r, 3)),
+                                 r.maybe(), ".".join(rand_pk(r, 4)), rand_pk(r, 2), r.maybe(), rand_pk(r, 3), r.pick(["lib.Book", "x"])],
 }
+
+
+def rand_pk(r, n):
+    return [r.pick(["acme", "lib", "v1", "v2beta1", "a_b", "x__y", "z_", "_q", "cloud", "v1x", "dep"]) for _ in range(r.randint(0, n))]
+
+
+def rand_names(r, n):
+    return [r.pick(["Tree", "Branch", "Book", "Other"]) for _ in range(r.randint(0, n))]
+
 
 
 def call_real(name, meta, args):
@@ -148,11 +192,72 @@ def call_real(name, meta, args):
         from google.protobuf import descriptor_pb2
         loc = descriptor_pb2.SourceCodeInfo.Location(leading_comments=args[0], trailing_comments=args[1], leading_detached_comments=args[2])
         return metadata.Metadata(documentation=loc).doc
+    if name.startswith("address_") and name != "address_resolve":
+        return call_address(name, args)
     f = _resolve(meta["file"], meta["qual"])
     if name == "address_resolve":
         from gapic.schema import metadata
         return metadata.Address(package=tuple(args[0])).resolve(args[1])
     return f(*args)
+
+
+def call_address(name, args):
+    """the real Address method, run on a stand-in `self` that carries exactly the attributes / properties the translation takes as parameters"""
+    from gapic.schema import metadata
+    import types as _t
+    A = metadata.Address
+
+    def prop(n):
+        p = A.__dict__[n]
+        return p.fget if isinstance(p, property) else (p.func if hasattr(p, "func") else p)
+
+    class Naming(_t.SimpleNamespace):
+        def __bool__(self):
+            return self.truthy
+    if name == "address_str":
+        m, parent, nm, alias, pp = args
+        return A.__str__(_t.SimpleNamespace(module=m, parent=tuple(parent), name=nm, module_alias=alias, is_proto_plus_type=pp))
+    if name == "address_module_alias":
+        m, coll, pk, v = args
+        return prop("module_alias")(_t.SimpleNamespace(module=m, collisions=frozenset(coll), package=tuple(pk), api_naming=_t.SimpleNamespace(version=v)))
+    if name == "address_proto":
+        return prop("proto")(_t.SimpleNamespace(package=tuple(args[0]), parent=tuple(args[1]), name=args[2]))
+    if name == "address_proto_package":
+        return prop("proto_package")(_t.SimpleNamespace(package=tuple(args[0])))
+    if name == "address_versioned_package":
+        return list(A.convert_to_versioned_package(_t.SimpleNamespace(package=tuple(args[0]))))
+    if name == "address_subpackage":
+        return list(prop("subpackage")(_t.SimpleNamespace(package=tuple(args[0]), api_naming=_t.SimpleNamespace(proto_package=args[1]))))
+    if name in ("address_python_import", "address_sphinx"):
+        if name == "address_python_import":
+            pk, m, ns, vmn, app, nt, pp_, sub, ipp, vp, alias = args
+            parent, nm, sstr = (), "", ""
+        else:
+            pk, m, parent, nm, ns, vmn, app, nt, pp_, sub, ipp, vp, sstr = args
+            alias = ""
+        naming = Naming(truthy=nt, module_namespace=tuple(ns), versioned_module_name=vmn, proto_package=app)
+
+        class Self(_t.SimpleNamespace):
+            def __str__(self):
+                return sstr
+
+            def convert_to_versioned_package(self):
+                return tuple(vp)
+        me = Self(package=tuple(pk), module=m, parent=tuple(parent), name=nm, api_naming=naming, proto_package=pp_, subpackage=tuple(sub),
+                  is_proto_plus_type=ipp, module_alias=alias)
+        if name == "address_sphinx":
+            return prop("sphinx")(me)
+        imp_ = prop("python_import")(me)
+        return {"package": list(imp_.package), "module": imp_.module, "alias": imp_.alias}
+    if name == "address_rel":
+        pk, m, parent, nm, opk, om, op, on, sstr = args
+
+        class Self(_t.SimpleNamespace):
+            def __str__(self):
+                return sstr
+        return A.rel(Self(package=tuple(pk), module=m, parent=tuple(parent), name=nm),
+                     _t.SimpleNamespace(package=tuple(opk), module=om, parent=tuple(op), name=on))
+    raise Skip()
 
 
 def check_functions(ctx, names, n):
